@@ -14,7 +14,8 @@ LoadVal(j) == IF j.t = "ns" THEN NS({<<x[1], x[2], x[3]>> : x \in Range(j.v)}) E
 LoadVars(vs) == [k \in DOMAIN vs |-> LoadVal(vs[k])]
 
 Ctx(ev) == [f |-> Forest, n |-> <<ev.doc, ev.ctx, 0>>, pos |-> ev.pos, size |-> ev.size,
-            vars |-> LoadVars(ev.vars), cur |-> <<ev.doc, ev.ctx, 0>>, keys |-> <<>>]
+            vars |-> LoadVars(ev.vars), keys |-> <<>>,
+            cur |-> IF "cur" \in DOMAIN ev THEN <<ev.cur[1], ev.cur[2], 0>> ELSE <<ev.doc, ev.ctx, 0>>]   \* current() may be in another document
 
 (* the value a typed entry point must deliver: the standard conversion of the general value *)
 Convert(F, kind, v) ==
@@ -28,7 +29,11 @@ Convert(F, kind, v) ==
 
 (* a delivered node-set must be a duplicate-free sequence in document order (C12) *)
 Delivered(j) == [k \in 1..Len(j.v) |-> <<j.v[k][1], j.v[k][2], j.v[k][3]>>]
-OrderOk(ev) == ("error" \in DOMAIN ev) \/ ev.res.t # "ns" \/ Delivered(ev.res) = DocOrderSeq(Range(Delivered(ev.res)))
+(* within a document: document order; nodes of different documents are never interleaved (which document comes first is the     *)
+(* implementation's choice, XPath 5: "implementation-dependent")                                                                  *)
+SeqOrderOk(s) == /\ \A i \in 1..(Len(s) - 1) : s[i][1] = s[i + 1][1] => Before(s[i], s[i + 1])
+                 /\ \A i, j \in 1..Len(s) : (i < j /\ s[i][1] = s[j][1]) => \A k \in i..j : s[k][1] = s[i][1]
+OrderOk(ev) == ("error" \in DOMAIN ev) \/ ev.res.t # "ns" \/ SeqOrderOk(Delivered(ev.res))
 
 (* Events may carry the raw lexemes of the expression text (toks, lexok).  Then the expression is   *)
 (* what XPathSyntax!Parse makes of them: a string that is not an XPath expression must be rejected *)
